@@ -76,6 +76,12 @@ static int get_bom_skip(const std::vector<char>& buff)
 }
 static bool file_exists(std::string_view filename)
 {
+    // opening a directory succeeds on some platforms; only regular files can be read
+    std::error_code ec;
+    if (!std::filesystem::is_regular_file(std::filesystem::path(filename), ec))
+    {
+        return false;
+    }
     std::ifstream infile(filename.data());
 #ifdef DF__SQF_FILEIO__TRACE_REESOLVE
     std::cout << "\x1B[33m[FILEIO ASSERT]\033[0m" <<
